@@ -205,6 +205,50 @@ example : (compileChars (fun _ => false) "c:items.v".toList).map Forest.paths = 
      [.named ['c'] false false, .listItems true true, .named ['v'] true false],
      [.named ['c'] false false, .setItems true true, .named ['v'] true false]] := by decide
 
+/-! ## the list form of `observe` -/
+
+/-- `HasTraits.observe(handler, [item, …])`, `@observe([…])`, `Property(observe=[…])`
+("If this is a list, each item must be a string or an ObserverExpression"):
+the list is compiled item by item.  It is rejected iff some item is rejected —
+only a text that is not an expression *on its own* can be, always with
+ValueError — and otherwise denotes the union of what its items denote. -/
+theorem C15_list_form (uw : Char → Bool) (items : List Item) :
+    ((∃ e, compileItems uw items = .error e) ↔
+        ∃ it ∈ items, ∃ s, it = .text s ∧ parseChars uw s = none) ∧
+    (∀ e, compileItems uw items = .error e → e = .valueError) ∧
+    (∀ gs, compileItems uw items = .ok gs →
+        ∀ p, p ∈ gs.paths ↔ ∃ it ∈ items, ∃ g, compileItem uw it = .ok g ∧ p ∈ g.paths) := by
+  refine ⟨?_, ?_, compileItems_paths uw items⟩
+  · rw [compileItems_error]
+    constructor
+    · rintro ⟨it, hit, e, he⟩
+      obtain ⟨_, s, hs, hp⟩ := compileItem_error uw it e he
+      exact ⟨it, hit, s, hs, hp⟩
+    · rintro ⟨it, hit, s, rfl, hp⟩
+      exact ⟨_, hit, .valueError, by simp [compileItem, compileChars, hp]⟩
+  · intro e he
+    -- the error of the list is the error of its first failing item; all are ValueError
+    induction items with
+    | nil => simp [compileItems] at he
+    | cons a rest ih =>
+      simp only [compileItems] at he
+      cases ha : compileItem uw a with
+      | error e1 =>
+        rw [ha] at he; cases he
+        exact (compileItem_error uw a e ha).1
+      | ok g =>
+        rw [ha] at he
+        cases hr : compileItems uw rest with
+        | error e2 => rw [hr] at he; cases he; exact ih hr
+        | ok gs => rw [hr] at he; cases he
+
+/-- `['child.value', '*']` is accepted (each item is an expression), `['[age', 'name]']` is
+rejected (neither is) — the items are never pasted together. -/
+example : (compileItems (fun _ => false) [.text "child.value".toList, .text "*".toList]).map
+    (·.paths.length) = .ok 2 := by decide
+example : compileItems (fun _ => false) [.text "[age".toList, .text "name]".toList] =
+    .error .valueError := by decide
+
 /-! ## the filter elements -/
 
 /-- `+name` matches exactly the traits whose metadata `name` is not None —
